@@ -77,3 +77,8 @@ type PostBlock interface {
 type PostReopen interface {
 	AfterReopen(s *Sim, why string)
 }
+
+// Finisher (optional): called once at the end of the run (release resources such as extra ledgers).
+type Finisher interface {
+	Finish(s *Sim)
+}
